@@ -532,6 +532,9 @@ def derived_relations(system: Any, msgs: Sequence[Tuple[str, str]] = ()) -> List
         mro = list(c.mro())
         if c.fullName() in mro_msgs or any(b.fullName() in mro_msgs for b in c.allbases()):
             continue
+        if any(len([x for x in k.baseobjects if x is not None]) != len({id(x) for x in k.baseobjects if x is not None})
+               for k in c.allbases(include_self=True)):
+            continue        # the same class listed twice among the bases: Python rejects the class statement (TypeError)
         if not mro or mro[0] is not c:
             bad.append(f"MroStartsWithSelf:{c.fullName()}")
         for b in c.baseobjects:
